@@ -1,5 +1,171 @@
-(** C35 -- stub, replaced below *)
-From TLV Require Import Frame.FrameModel.
+(** C35 -- packet stream framing round-trips and detects corruption
+    (pkg/rpc/packetconn.go, crypto.go).  Property theorems only; each is closed by [exact] of a lemma
+    from Frame/FrameProofs.v, Frame/FrameCrc.v or Frame/FrameCrypt.v and followed by [Print Assumptions].
+
+    Reading guide: [write_ops] is the transcription of the writer (WritePacket*/Flush), [frames] its
+    closed form (length, seqNum, type, body, CRC32, zero alignment, padVal words at flushes),
+    [read_stream]/[read_chunked]/[read_cchunked] the transcription of ReadPacket called until it fails,
+    over the whole stream / over an arbitrary chunking / over an arbitrary chunking of the CBC-encrypted
+    stream (cryptoReader).  [ops_ok] restricts the packets to what a user of PacketConn may send
+    (body bytes are bytes, length within maxPacketLen, multiple of 4 under protocol version 0, type is
+    not rpcPing/rpcPong, handshake-phase types and size for negative sequence numbers). *)
+From Coq Require Import ZArith.
+From TLV Require Import Prim.PrimModel Frame.FrameModel Frame.FrameCrc Frame.FrameProofs Frame.FrameCrypt.
 Open Scope N_scope.
-Example C35_ex_crc : crc_update poly_ieee 0 [49;50;51;52;53;54;55;56;57] = 3421780262.
-Proof. vm_compute. reflexivity. Qed.
+
+(** The writer emits exactly [frames]: CRC of a packet in front of the next header or at the flush. *)
+Theorem C35_writer_is_frames : forall c seq pos ops out st',
+  write_ops c {| w_seq := seq; w_pend := []; w_pos := pos |} (ops ++ [WFlush]) = Some (out, st') ->
+  out = frames c seq pos (ops ++ [WFlush]).
+Proof. exact write_ops_flushed. Qed.
+Print Assumptions C35_writer_is_frames.
+
+(** Round trip: every list of write operations (packets of any sizes/types, flushes anywhere) is read
+    back as exactly the packets written, in order, ending in a clean EOF. *)
+Theorem C35_roundtrip : forall c seq pos ops,
+  cfg_ok c -> (startSeq <= seq)%Z -> (seq = startSeq -> c_enc c = false) ->
+  (c_enc c = true -> pos mod 4 = 0) -> ops_ok c seq ops ->
+  read_stream c seq (frames c seq pos ops) = (packets_of ops, VEof).
+Proof. exact frames_roundtrip. Qed.
+Print Assumptions C35_roundtrip.
+
+Theorem C35_roundtrip_written : forall c seq pos ops out st',
+  cfg_ok c -> (startSeq <= seq)%Z -> (seq = startSeq -> c_enc c = false) ->
+  (c_enc c = true -> pos mod 4 = 0) -> ops_ok c seq ops ->
+  write_ops c {| w_seq := seq; w_pend := []; w_pos := pos |} (ops ++ [WFlush]) = Some (out, st') ->
+  read_stream c seq out = (packets_of ops, VEof).
+Proof. exact write_read_roundtrip. Qed.
+Print Assumptions C35_roundtrip_written.
+
+(** Segmentation: the buffered reader fed by conn.Read calls that return arbitrary chunks (including
+    empty ones) computes the same result as the reader on the concatenated stream -- for every byte
+    stream, well-formed or not. *)
+Theorem C35_chunking_irrelevant : forall c seq chunks,
+  read_chunked c seq chunks = read_stream c seq (concat chunks).
+Proof. exact chunking_irrelevant. Qed.
+Print Assumptions C35_chunking_irrelevant.
+
+Theorem C35_roundtrip_any_chunking : forall c seq pos ops chunks,
+  cfg_ok c -> (startSeq <= seq)%Z -> (seq = startSeq -> c_enc c = false) ->
+  (c_enc c = true -> pos mod 4 = 0) -> ops_ok c seq ops ->
+  concat chunks = frames c seq pos ops ->
+  read_chunked c seq chunks = (packets_of ops, VEof).
+Proof. exact roundtrip_any_chunking. Qed.
+Print Assumptions C35_roundtrip_any_chunking.
+
+(** Encryption (CBC over any block cipher [E]/[D] with [D (E x) = x] on 16-byte blocks): the wire
+    decrypts to the whole blocks of the plaintext stream; the decrypting reader, which only ever
+    decrypts complete blocks of an arbitrarily chunked wire, sees the decrypted stream; hence the round
+    trip holds through encryption for every chunking. *)
+Theorem C35_cbc_decrypts : forall E D : bytes -> bytes,
+  (forall x, block_ok x -> block_ok (E x)) -> (forall x, block_ok x -> D (E x) = x) ->
+  forall iv plain, block_ok iv -> bytes_ok plain ->
+  wire_dec D iv (wire_enc E iv plain) = concat (fst (blocks_of plain)).
+Proof. exact wire_dec_enc. Qed.
+Print Assumptions C35_cbc_decrypts.
+
+Theorem C35_encrypted_chunking_irrelevant : forall (D : bytes -> bytes) c seq iv chunks,
+  read_cchunked D c seq iv chunks
+  = read_all bytes take_flat c (S (length (concat chunks))) seq (wire_dec D iv (concat chunks)).
+Proof. exact cchunking_irrelevant. Qed.
+Print Assumptions C35_encrypted_chunking_irrelevant.
+
+Theorem C35_encrypted_roundtrip_any_chunking : forall E D : bytes -> bytes,
+  (forall x, block_ok x -> block_ok (E x)) -> (forall x, block_ok x -> D (E x) = x) ->
+  forall c seq pos ops iv chunks,
+  block_ok iv -> cfg_ok c -> c_enc c = true -> (startSeq < seq)%Z -> pos mod blockSize = 0 ->
+  ops_ok c seq ops ->
+  concat chunks = wire_enc E iv (frames c seq pos (ops ++ [WFlush])) ->
+  read_cchunked D c seq iv chunks = (packets_of ops, VEof).
+Proof. exact enc_roundtrip. Qed.
+Print Assumptions C35_encrypted_roundtrip_any_chunking.
+
+(** CRC-32 (any reflected polynomial with the x^0 and x^32 terms, i.e. IEEE and Castagnoli): every
+    error pattern confined to 32 consecutive bits of message ++ CRC -- [v * 2^t] with [0 < v < 2^32] on
+    the stream read as a little-endian integer, which is the transmission bit order -- is detected. *)
+Theorem C35_crc_detects_burst32 : forall P M M' C' v t,
+  good_poly P -> bytes_ok M -> bytes_ok M' -> bytes_ok C' -> length C' = 4%nat -> length M' = length M ->
+  N.lxor (le_val (M ++ nat_w (crc_update P 0 M))) (le_val (M' ++ C')) = v * 2 ^ t ->
+  0 < v < 2 ^ 32 ->
+  le_val C' <> crc_update P 0 M'.
+Proof. exact crc_detects_burst. Qed.
+Print Assumptions C35_crc_detects_burst32.
+
+Theorem C35_polynomials_good : good_poly poly_ieee /\ good_poly poly_castagnoli.
+Proof. exact (conj good_poly_ieee good_poly_castagnoli). Qed.
+Print Assumptions C35_polynomials_good.
+
+(** Corruption: a change confined to at most 4 consecutive bytes inside seqNum/type/body/CRC of one
+    frame ([a ++ w ++ z] becomes [a ++ w' ++ z]; the length word and the alignment zeros untouched):
+    all packets before that frame are delivered unchanged, then the reader reports an error -- it never
+    delivers an altered packet and never reports a clean end.  Holds for the plaintext stream with or
+    without alignment/padding (what the reader sees after decryption). *)
+Theorem C35_corrupted_stream_rejected : forall c seq pos ops p a w w' z rest,
+  cfg_ok c -> (startSeq <= seq)%Z -> (seq = startSeq -> c_enc c = false) ->
+  (c_enc c = true -> pos mod 4 = 0) -> ops_ok c seq ops ->
+  let seq' := (seq + Z.of_nat (length (packets_of ops)))%Z in
+  good_poly (poly_at c seq') -> pkt_ok c seq' p ->
+  frame c seq' p = a ++ w ++ z ->
+  (4 <= length a)%nat -> align_of c (lenN (p_body p)) <= lenN z ->
+  length w' = length w -> (length w <= 4)%nat -> w' <> w -> bytes_ok w' ->
+  read_stream c seq (frames c seq pos ops ++ (a ++ w' ++ z) ++ rest) = (packets_of ops, VErr).
+Proof. exact corrupted_stream_rejected. Qed.
+Print Assumptions C35_corrupted_stream_rejected.
+
+(** ... in particular any single byte of seqNum/type/body/CRC replaced by a different value. *)
+Theorem C35_single_byte_corruption_rejected : forall c seq pos ops p i b' rest,
+  cfg_ok c -> (startSeq <= seq)%Z -> (seq = startSeq -> c_enc c = false) ->
+  (c_enc c = true -> pos mod 4 = 0) -> ops_ok c seq ops ->
+  let seq' := (seq + Z.of_nat (length (packets_of ops)))%Z in
+  let f := frame c seq' p in
+  good_poly (poly_at c seq') -> pkt_ok c seq' p ->
+  (4 <= i < 16 + length (p_body p))%nat -> b' < 256 -> b' <> nth i f 0 ->
+  read_stream c seq (frames c seq pos ops ++ (firstn i f ++ [b'] ++ skipn (S i) f) ++ rest)
+  = (packets_of ops, VErr).
+Proof. exact single_byte_corruption_rejected. Qed.
+Print Assumptions C35_single_byte_corruption_rejected.
+
+Theorem C35_connection_polynomials_good : forall c seq,
+  c_poly c = poly_ieee \/ c_poly c = poly_castagnoli -> good_poly (poly_at c seq).
+Proof. exact good_poly_at. Qed.
+Print Assumptions C35_connection_polynomials_good.
+
+(** Not theorems (and not claimed): a corrupted *length* word, or any corrupted byte of the
+    *encrypted* stream (which garbles a whole plaintext block), is caught by the CRC/sequence/size
+    checks only with probability 1 - 2^-32; the check exercises these cases on the Go code. *)
+
+(** Non-vacuity: the CRC is the standard one; a concrete encrypted-layout stream with flushes, a
+    consumed ping and a wrap-around sequence number is read back; its premises are satisfiable. *)
+Example C35_ex_crc_ieee : crc_update poly_ieee 0 [49; 50; 51; 52; 53; 54; 55; 56; 57] = 3421780262.
+Proof. vm_compute. reflexivity. Qed.   (* crc32("123456789") = 0xCBF43926 *)
+Example C35_ex_crc_castagnoli : crc_update poly_castagnoli 0 [49; 50; 51; 52; 53; 54; 55; 56; 57] = 3808858755.
+Proof. vm_compute. reflexivity. Qed.   (* crc32c("123456789") = 0xE3069283 *)
+
+Definition ex_cfg : cfg := {| c_pv := 1; c_enc := true; c_poly := poly_castagnoli |}.
+Definition ex_ops : list wop :=
+  [WPkt {| p_type := 7; p_body := [1; 2; 3] |}; WFlush; WPkt {| p_type := 9; p_body := [] |};
+   WPkt {| p_type := 10; p_body := [5] |}; WFlush].
+
+Example C35_ex_stream :
+  frames ex_cfg 4294967295 0 ex_ops =
+  [19; 0; 0; 0; 255; 255; 255; 255; 7; 0; 0; 0; 1; 2; 3; 207; 157; 132; 70; 0; 4; 0; 0; 0; 4; 0; 0; 0; 4; 0; 0; 0;
+   16; 0; 0; 0; 0; 0; 0; 0; 9; 0; 0; 0; 16; 164; 72; 25;
+   17; 0; 0; 0; 1; 0; 0; 0; 10; 0; 0; 0; 5; 95; 150; 20; 251; 0; 0; 0; 4; 0; 0; 0; 4; 0; 0; 0; 4; 0; 0; 0]
+  /\ read_stream ex_cfg 4294967295 (frames ex_cfg 4294967295 0 ex_ops) = (packets_of ex_ops, VEof)
+  /\ read_chunked ex_cfg 4294967295 (map (fun b => [b]) (frames ex_cfg 4294967295 0 ex_ops)) = (packets_of ex_ops, VEof).
+Proof. vm_compute. repeat split; reflexivity. Qed.
+
+Example C35_ex_premises_satisfiable : cfg_ok ex_cfg /\ ops_ok ex_cfg 4294967295 ex_ops.
+Proof.
+  split; [vm_compute; reflexivity|].
+  cbn [ops_ok ex_ops]. unfold pkt_ok. cbn [p_body p_type].
+  repeat split; try (vm_compute; (reflexivity || discriminate || (intros; discriminate))); try (repeat constructor; vm_compute; reflexivity).
+Qed.
+
+Example C35_ex_ping_consumed_pong_rejected :
+  read_stream ex_cfg 0 (frames ex_cfg 0 0 [WPkt {| p_type := tag_rpcPing; p_body := [1; 2; 3; 4; 5; 6; 7; 8] |};
+                                           WPkt {| p_type := 3; p_body := [] |}; WFlush])
+  = ([{| p_type := 3; p_body := [] |}], VEof)
+  /\ read_stream ex_cfg 0 (frames ex_cfg 0 0 [WPkt {| p_type := tag_rpcPong; p_body := [1; 2; 3; 4; 5; 6; 7; 8] |}; WFlush])
+  = ([], VErr).
+Proof. vm_compute. split; reflexivity. Qed.
